@@ -145,6 +145,10 @@ class C14Property:
                     fails += corr.with_cap(CAP_S, oracle.check_instance, entry, r, pools, rng, ctx, stats)
                 except corr._Timeout:  # noqa: SLF001
                     stats["timeouts"].append(str(r)[:160])
+                try:
+                    fails += corr.with_cap(CAP_S, oracle.check_calling_conventions, entry, r, rng, stats)
+                except corr._Timeout:  # noqa: SLF001
+                    stats["timeouts"].append("calling conventions: " + str(r)[:120])
                 others = corr.variants_for_eq(entry, pools, rng, r)
                 stats["equality_pairs"] += len(others)
                 fails += oracle.check_equality(entry, r, others, notes)
